@@ -87,6 +87,11 @@ bool Module::add(Module *child, bool required)
 
 bool Module::addAs(Module *child, const std::string &name, bool required)
 {
+    if (child == nullptr) {
+        LogWarn("child == nullptr");
+        return false;
+    }
+
     auto tmp = child->name_;
     child->name_ = name;
 
